@@ -694,6 +694,8 @@ fn tag(asyncfl: bool, sync_tag: &'static str) -> &'static str {
         "C03" => "C03|C16",
         "C19" => "C19|C16",
         "C04" => "C04|C16",
+        "C01|C03" => "C01|C03|C16",
+        "C02|C03" => "C02|C03|C16",
         "X-trylock" => "X-trylock",
         _ => "C16",
     }
@@ -1234,7 +1236,19 @@ fn run_inner2<F: Fl>(h: &ObsHistory, soft: &mut Option<Div>) -> Result<OFacts, D
                         Poll::Pending
                     };
                     if r != expect {
-                        let t = if m.closed || matches!(r, Poll::Ready(None)) { "C03" } else { "C01" };
+                        // an end although an owner lives is a stream that is ready without an unobserved update
+                        // (C01) and an end before the last owner went (C03); Pending although the end is
+                        // available is a subscriber left suspended on a state nobody will wake (C02) and a
+                        // missing end (C03)
+                        let t = if !m.closed && matches!(r, Poll::Ready(None)) {
+                            "C01|C03"
+                        } else if m.closed && r.is_pending() {
+                            "C02|C03"
+                        } else if m.closed {
+                            "C03"
+                        } else {
+                            "C01"
+                        };
                         bail!(t, "step {step} {op:?} on subscriber {i}: {r:?}, expected {expect:?} (observed version {}, current {}, closed {})", sm.observed, m.version, m.closed);
                     }
                     // C02: ready again only after the waker of the last Pending poll was woken
